@@ -1,4 +1,5 @@
 import collections
+import random
 """Per-property configuration: which operations, which input streams, which Lean modules."""
 import os, json, collections, random
 from . import core
@@ -489,6 +490,48 @@ SCANS = {'C06': ['sqrt'], 'C09': ['round', 'floor', 'ceil', 'trunc', 'fract'],
          'C03': ['to_f64', 'to_f32', 'rt_f64', 'rt_str'], 'C02': ['from_f32', 'p16_from_f32', 'p8_from_f32'], 'C08': ['to_p16_m', 'to_p8_m'], 'C01': ['p16-pairs', 'wide:p32'], 'C05': ['wide:p32fma', 'wide:p16fma']}
 SCAN_LOG = []
 SCAN_SEED = [1]
+_GAPC = {}
+def gap_product_triples(limit=6000):
+    """P16E1 fused operations: operand pairs whose EXACT product has a long run of zeros between its top and its lowest set bit
+    (1 + k*2^G factored into two 13-bit significands: what random or few-bit operands never give), each with the addends that make the
+    aligned sum carry out onto an exact tie with the product's lowest bit as the only sticky bit (all-ones addend at the scales where that
+    lowest bit lands on the last bits of the 32-bit working word).  Deterministic, cached in work/."""
+    import json
+    cache = os.path.join(core.WORK, 'gap_triples_p16.json')
+    if 'v' in _GAPC: return _GAPC['v'][:limit]
+    if os.path.exists(cache):
+        _GAPC['v'] = json.load(open(cache)); return _GAPC['v'][:limit]
+    import sys
+    sp = os.path.join(core.VERIF, 'tools')
+    if sp not in sys.path: sys.path.insert(0, sp)
+    from pyspec import rnd
+    from fractions import Fraction as Fr
+    pairs = []
+    for G in range(14, 25):
+        for k in range(1, 1 << (26 - G)):
+            n_ = 1 + (k << G)
+            x = 3
+            while x * x <= n_ and x < 8192:
+                if n_ % x == 0 and n_ // x < 8192: pairs.append((x, n_ // x))
+                x += 2
+    M = 0xffff
+    out = []
+    rr = random.Random(4242)
+    rr.shuffle(pairs)
+    for (x, y) in pairs[:1500]:
+        bx, by = x.bit_length() - 1, y.bit_length() - 1
+        a = rnd(16, 1, Fr(x, 1 << bx)); b = rnd(16, 1, Fr(y, 1 << by))
+        t = -(bx + by)                                  # scale of the lowest set bit of the exact product (x*y is odd)
+        for s_ in range(t + 26, t + 33):
+            if s_ + 1 > 27: continue
+            c = rnd(16, 1, Fr(2) ** (s_ + 1)) - 1         # the largest posit below 2^(s+1): all-ones fraction
+            nc = (-c) & M; na = (-a) & M
+            out += ['p16 mul_add %x %x %x' % (a, b, c), 'p16 mul_add %x %x %x' % (na, b, nc), 'p16 mul_sub %x %x %x' % (a, b, nc),
+                    'p16 sub_product %x %x %x' % (a, b, nc)]
+    json.dump(out, open(cache, 'w'))
+    _GAPC['v'] = out
+    return out[:limit]
+
 def exhaustive_scans(pid, tier):
     """run the harness's exhaustive scans that belong to the property; returns the candidate lines (empty on a correct tree)"""
     import subprocess, time
@@ -522,12 +565,23 @@ def exhaustive_scans(pid, tier):
             cmd = [exe, '--wide-scan', op[5:], str(lg), '300', str(SCAN_SEED[0])]; space = 1 << lg
         elif op == 'sqrt': cmd = [exe, '--sqrt-scan', '2000']; space = (1 << 31) - 1
         else: cmd = [exe, '--scan', op, '2000']; space = 1 << 32
-        try:
-            r_ = subprocess.run(cmd, capture_output=True, text=True, timeout=1800)
-            ok = r_.returncode == 0
-            cand = [l for l in r_.stdout.split('\n') if l.strip()] if ok else []
-        except Exception:
-            ok = False; cand = []
+        def _run(c):
+            try:
+                r_ = subprocess.run(c, capture_output=True, text=True, timeout=1800)
+                return (r_.returncode == 0), ([l for l in r_.stdout.split('\n') if l.strip()] if r_.returncode == 0 else [])
+            except Exception:
+                return False, []
+        ok, cand = _run(cmd)
+        if not ok: ok, cand = _run(cmd)          # one retry: a scan that did not run is reported (DID NOT RUN) and recorded in the evidence
+        # thorough tier, plain unary scans of the property itself: also in the overflow-checked (dev) build - a debug-only panic on an
+        # unstructured 32-bit input is a candidate too
+        if ok and tier == 'thorough' and pid != 'C16' and cmd[1] == '--scan' and op not in ('rt_str', 'from_u64w', 'from_i64w'):
+            dev = os.path.join(core.TARGET, 'debug', 'verif_harness')
+            if os.path.exists(dev):
+                t1 = time.time()
+                ok2, cand2 = _run([dev] + cmd[1:])
+                SCAN_LOG.append({'scan': op + ' (dev profile)', 'exhaustive': True, 'inputs': space if ok2 else 0, 'candidates': len(cand2), 'wall_s': round(time.time() - t1, 1), 'ran': ok2})
+                cand = cand + [c for c in cand2 if c not in set(cand)]
         if op == 'sqrt': cand = ['p32 sqrt ' + c for c in cand]
         SCAN_LOG.append({'scan': op, 'exhaustive': not (op.startswith('wide:') or op in ('from_u64w', 'from_i64w') or op == 'rt_str'), 'inputs': space if ok else 0, 'candidates': len(cand), 'wall_s': round(time.time() - t0, 1), 'ran': ok})
         for c in cand:
@@ -676,6 +730,8 @@ def extra_streams(pid, tier, rng, scale):
     # exhaustive SEARCHES (not proofs): the freshly built release harness runs the operation on ALL 2^32 inputs (all 2^32 operand pairs for
     # the P16E1 arithmetic) and compares with its own exact integer reference (own posit decoder/encoder, u128 arithmetic: harness/src/
     # scan.rs, hard16.rs, hard.rs); every disagreeing or panicking input becomes a protocol line that the specification judges below
+    if pid in ('C05', 'C16'):
+        lines += gap_product_triples(40000 if pid == 'C05' else 4000)
     SCAN_SEED[0] = rng.getrandbits(32)
     for ln in exhaustive_scans(pid, tier): lines.append(ln)
     if pid == 'C15':
